@@ -25,7 +25,7 @@ THEOREMS = ['C08_uniform', 'C08_zero', 'C08_volume', 'C08_uncorrected_overcounts
             'C08_accept', 'C08_radial', 'C08_ellVolume', 'C08_unitBall']
 TIE_THEOREMS = ['C08_tie_formulas', 'C08_tie_union_loop', 'C08_tie_nautilus_loop', 'C08_tie_ellipsoid_logv']
 MODULE = [('NautilusVerif.Properties.C08', THEOREMS), ('NautilusVerif.Properties.C08Buf', None), ('NautilusVerif.Properties.C08Tie', TIE_THEOREMS),
-          ('NautilusVerif.Properties.CoreTie', ['Core_tie_nautilusSample', 'Core_tie_nautilusResetAndSample', 'Core_tie_nautilusReset', 'Core_tie_unionReset'])]
+          *common.core_tie(['nautilusSample', 'nautilusResetAndSample', 'nautilusReset', 'unionReset'])]
 FILES = ['nautilus/bounds/union.py', 'nautilus/bounds/nautilus.py', 'nautilus/bounds/basic.py']
 ALPHA = 1e-9
 
